@@ -65,6 +65,7 @@ type caseT struct {
 	Edits   []wtlab.Edit `json:"edits"`
 	Wrapped bool         `json:"wrapped_fs"`
 	Stratum string       `json:"stratum,omitempty"`
+	Files   []string     `json:"files,omitempty"` // ResetOptions.Files (reset-keep-files)
 }
 
 func needsDescendant(op string) bool { return op == "pull" || op == "merge-ff" }
@@ -76,7 +77,7 @@ func run(c *vf.Ctx) {
 	var mu sync.Mutex
 	vf.Parallel(nb, 8, func(i int) {
 		r := c.Rand("base", i)
-		b, err := wtlab.NewBase(g, r, filepath.Join(c.Scratch, fmt.Sprintf("base%d", i)), gen.HistOpts{
+		b, err := wtlab.NewBaseSameTree(g, r, filepath.Join(c.Scratch, fmt.Sprintf("base%d", i)), gen.HistOpts{
 			N: 7 + r.Intn(4), MergeProb: 0.15, Files: 4 + r.Intn(3), Path: gen.PathOpts{Depth: 2, Symlinks: true, Exec: true},
 		})
 		if err != nil {
@@ -175,8 +176,84 @@ func run(c *vf.Ctx) {
 			}
 		}
 	}
+	// stratum "same tree": the target's tree equals the current one (the commit itself, an empty
+	// commit, a revert of a revert); every local change must simply survive or the call be refused
+	sameOps := []string{"checkout-branch", "checkout-hash", "checkout-create", "reset-merge", "reset-keep", "pull"}
+	sameKinds := append(append([]string{}, wtlab.TrackedKinds...), wtlab.NewKinds...)
+	for round := 0; round < rounds; round++ {
+		for oi, op := range sameOps {
+			for ki, kind := range sameKinds {
+				r := c.Rand("sametree", round, op, kind)
+				b := bases[(round+oi+ki)%nb]
+				bi := (round + oi + ki) % nb
+				var cur, tgt int
+				switch v := (oi + ki + round) % 3; {
+				case v == 0 && op != "pull":
+					cur = r.Intn(len(b.IDs))
+					tgt = cur
+				default:
+					if len(b.SameTree) == 0 {
+						continue
+					}
+					p := b.SameTree[r.Intn(len(b.SameTree))]
+					cur, tgt = p[0], p[1]
+				}
+				rel := "same"
+				if kind == "staged-add" || kind == "untracked" {
+					rel = "none"
+				}
+				e, ok := wtlab.PickEdit(r, kind, rel, b.Tree(cur), b.Tree(tgt), len(cases)*4, nil)
+				if !ok {
+					continue
+				}
+				edits := []wtlab.Edit{e}
+				if e2, ok := wtlab.PickEdit(r, []string{"unstaged-mod", "unstaged-del", "untracked"}[r.Intn(3)], "", b.Tree(cur), b.Tree(tgt), len(cases)*4+1, []string{e.Path}); ok && r.Intn(2) == 0 {
+					edits = append(edits, e2)
+				}
+				cases = append(cases, caseT{Op: op, Base: bi, Cur: cur, Tgt: tgt, Edits: edits, Stratum: op + "|sametree|" + kind})
+				c.Count("same_tree_cases_planned", 1)
+			}
+		}
+		// KeepReset restricted to Files that do not differ between current and target
+		for ki, kind := range sameKinds {
+			r := c.Rand("keepfiles", round, kind)
+			bi := (round + ki) % nb
+			b := bases[bi]
+			n := len(b.IDs)
+			for _, x := range r.Perm(n * n) {
+				cur, tgt := x/n, x%n
+				if cur == tgt {
+					continue
+				}
+				var unchanged []string
+				for _, p := range b.Tree(cur).Paths() {
+					if wtlab.Rel(p, b.Tree(cur), b.Tree(tgt)) == "same" {
+						unchanged = append(unchanged, p)
+					}
+				}
+				if len(unchanged) == 0 {
+					continue
+				}
+				rel := "same"
+				if kind == "staged-add" || kind == "untracked" {
+					rel = "none"
+				}
+				e, ok := wtlab.PickEdit(r, kind, rel, b.Tree(cur), b.Tree(tgt), len(cases)*4, nil)
+				if !ok {
+					continue
+				}
+				files := []string{unchanged[r.Intn(len(unchanged))]}
+				if _, tracked := b.Tree(cur)[e.Path]; tracked && r.Intn(2) == 0 {
+					files = []string{e.Path}
+				}
+				cases = append(cases, caseT{Op: "reset-keep-files", Base: bi, Cur: cur, Tgt: tgt, Edits: []wtlab.Edit{e}, Files: files, Stratum: "reset-keep-files|" + kind})
+				c.Count("keep_files_cases_planned", 1)
+				break
+			}
+		}
+	}
 	allKinds := append(append([]string{}, wtlab.TrackedKinds...), wtlab.NewKinds...)
-	nRandom := c.N(206, 2400)
+	nRandom := c.N(150, 2000)
 	for k := 0; k < nRandom; k++ {
 		r := c.Rand("random", k)
 		op := mainOps[k%len(mainOps)]
@@ -227,6 +304,8 @@ func run(c *vf.Ctx) {
 	c.Floor("refused operations", c.Counter("op_refused"), c.N(40, 400))
 	c.Floor("local paths checked", c.Counter("local_paths_checked"), c.N(350, 3500))
 	c.Floor("strata planned (op x kind x relation)", c.SeenCount("strata_planned"), 150)
+	c.Floor("cases whose target has the same tree as the current commit", c.Counter("same_tree_cases_planned"), c.N(40, 240))
+	c.Floor("KeepReset cases restricted to unchanged Files", c.Counter("keep_files_cases_planned"), c.N(6, 36))
 	c.Floor("untracked-at-target-path cases", c.Counter("untracked_at_target_path"), c.N(12, 100))
 	c.Assume("ignored files are outside the domain (no .gitignore is generated): git itself overwrites ignored untracked files on checkout")
 	c.Assume("a loss is reported only when real git 2.39.5, run on an identically prepared twin, preserves the same path (or refuses); losses git shares (e.g. reset --merge discarding staged changes, recreation of a worktree-deleted file) are counted as git_same_loss, not reported")
@@ -266,7 +345,7 @@ func openRepo(dir string, wrapped bool) (*git.Repository, error) {
 	return git.Open(filesystem.NewStorage(dot, cache.NewObjectLRUDefault()), root)
 }
 
-func goOp(repo *git.Repository, op string, tgtBranch, tgtID string) error {
+func goOp(repo *git.Repository, op string, tgtBranch, tgtID string, files []string) error {
 	w, err := repo.Worktree()
 	if err != nil {
 		return err
@@ -285,6 +364,8 @@ func goOp(repo *git.Repository, op string, tgtBranch, tgtID string) error {
 		return w.Reset(&git.ResetOptions{Commit: h, Mode: git.MergeReset})
 	case "reset-keep":
 		return w.Reset(&git.ResetOptions{Commit: h, Mode: git.KeepReset})
+	case "reset-keep-files":
+		return w.Reset(&git.ResetOptions{Commit: h, Mode: git.KeepReset, Files: files})
 	case "pull":
 		return w.Pull(&git.PullOptions{RemoteName: "origin", ReferenceName: plumbing.NewBranchReferenceName(tgtBranch)})
 	case "merge-ff":
@@ -303,7 +384,7 @@ func gitOp(g *gitx.Git, dir, op, tgtBranch, tgtID string) gitx.Result {
 		return g.Run(dir, "checkout", "-q", "-b", "newb", tgtID)
 	case "reset-merge":
 		return g.Run(dir, "reset", "-q", "--merge", tgtID)
-	case "reset-keep":
+	case "reset-keep", "reset-keep-files": // git has no path-limited --keep: the unrestricted form is the reference for "would git lose it"
 		return g.Run(dir, "reset", "-q", "--keep", tgtID)
 	case "pull":
 		return g.Run(dir, "pull", "-q", "--ff-only", "origin", tgtBranch)
@@ -362,7 +443,7 @@ func runCase(c *vf.Ctx, g *gitx.Git, bases []*wtlab.Base, k caseT) {
 		return
 	}
 	var opErr error
-	p, stack := vf.Catch(func() { opErr = goOp(repo, k.Op, tgtBranch, tgtID) })
+	p, stack := vf.Catch(func() { opErr = goOp(repo, k.Op, tgtBranch, tgtID, k.Files) })
 	repo.Close()
 	if p != nil {
 		c.Fail("panic:"+k.Op, fmt.Sprintf("%s panicked: %v\n%s", k.Op, p, stack), k)
@@ -494,6 +575,8 @@ func opFamily(op string) string {
 	switch op {
 	case "checkout-branch", "checkout-hash", "checkout-create":
 		return "checkout" // same code path: HEAD update, then Reset{MergeReset}
+	case "reset-keep-files":
+		return "reset-keep"
 	}
 	return op
 }
